@@ -413,7 +413,29 @@ class Verifier(Engine):
             if isinstance(v, FnV) and v.kind == "nested":
                 return v.node
             raise GenerationError(f"inline target {txt} is not a nested function")
+        if how is None and isinstance(call.func, ast.Attribute) and isinstance(call.func.value, ast.Name) \
+                and call.func.value.id == "self" and isinstance(st.env.get("self"), ObjV) and st.env["self"].path == ("self",) \
+                and self.func.cls is not None and not self.c.nested_in and txt not in self.registry_calls():
+            # a private helper method of the same class without a contract of its own: its body is part of the
+            # function under contract (a block moved into a method keeps the proof)
+            helper = self._class_method(call.func.attr)
+            if helper is not None and call.func.attr.startswith("_") and not call.func.attr.startswith("__") \
+                    and getattr(self, "_inline_depth", 0) < 2:
+                return helper
         return None
+
+    def registry_calls(self):
+        return set(self.c.calls)
+
+    def _class_method(self, name: str):
+        prefix = self.c.qualname.split("#")[0].rsplit(".", 1)[0] + "."
+        try:
+            fi = self.repo.func(prefix + name)
+        except Exception:
+            return None
+        if fi.node.decorator_list:
+            return None
+        return fi.node
 
     def _inline_call(self, fnode: ast.FunctionDef, call: ast.Call, st: State, bind):
         args = [self.eval(a, st) for a in call.args]
@@ -423,6 +445,9 @@ class Verifier(Engine):
         env = dict(st.env)
         params = [a.arg for a in fnode.args.args]
         defaults = fnode.args.defaults
+        is_method = params[:1] == ["self"] and isinstance(call.func, ast.Attribute)
+        if is_method:
+            args = [st.env["self"]] + args
         for k, p in enumerate(params):
             if k < len(args):
                 env[p] = args[k]
@@ -436,10 +461,21 @@ class Verifier(Engine):
         st.env = env
         local_names = set(params) | {n.id for n in ast.walk(fnode) if isinstance(n, ast.Name) and isinstance(n.ctx, ast.Store)}
         res = []
-        for kind, s, val in self.exec_block(fnode.body, st):
+        if is_method:
+            self._inline_depth = getattr(self, "_inline_depth", 0) + 1
+        try:
+            body_outs = self.exec_block(fnode.body, st)
+        finally:
+            if is_method:
+                self._inline_depth -= 1
+        for kind, s, val in body_outs:
             if kind in ("normal", "return"):
-                # restore caller's locals; keep nothing of the callee's (closures write via heap only)
+                # restore caller's locals; keep nothing of the callee's (closures write via heap only) except the
+                # ghost state call models maintain (contract parameters that are not locals of the callee, typestate)
                 new_env = dict(saved_env)
+                for gname, gval in s.env.items():
+                    if gname not in local_names and (gname in saved_env or gname.startswith("#")):
+                        new_env[gname] = gval
                 s.env = new_env
                 bind(s, val if kind == "return" else NoneV())
                 res.append(("normal", s, None))
@@ -701,6 +737,8 @@ class Verifier(Engine):
             raise GenerationError("for-else")
         k = self.loop_nodes.get(id(node))
         spec = self.loop_specs.get(k)
+        if k is None:
+            k, spec = self._spec_by_header(node)
         if spec is not None and spec.abstract:
             self.frame_check(node, loop_fingerprint(node), spec.allow_writes)
             return [("normal", st, None)]
@@ -735,12 +773,25 @@ class Verifier(Engine):
             raise GenerationError("while-else")
         k = self.loop_nodes.get(id(node))
         spec = self.loop_specs.get(k)
+        if k is None:
+            k, spec = self._spec_by_header(node)
         if spec is None:
             raise GenerationError(f"{self.c.qualname}: loop #{k} '{loop_fingerprint(node)}' has no invariant")
         if spec.abstract:
             self.frame_check(node, loop_fingerprint(node), spec.allow_writes)
             return [("normal", st, None)]
         return self._cut_loop(node, k, spec, st, view=None)
+
+    def _spec_by_header(self, node):
+        """a loop that is not one of the function's own (it sits in an inlined helper): the contract's loop
+        specification with the same header, if it is not bound to a loop of the function itself"""
+        fp = loop_fingerprint(node)
+        bound = set(self.loop_specs)
+        own = {loop_fingerprint(l) for l in self.func.loops()}
+        for kk, sp in self.c.loops.items():
+            if sp.fingerprint == fp and fp not in own:
+                return f"h{kk}", sp
+        return None, None
 
     def _modified(self, body, st: State):
         names, paths = set(), set()
